@@ -135,7 +135,7 @@ pub fn decode(flavour: &str, data: &[u8]) -> Case {
         "serde" => {
             c.set("coll", b.below(2));
             c.set("mode", b.below(4));
-            c.set("hint", b.below(12));
+            c.set("hint", b.below(20));
             c.set("pre", b.below(40));
             // derived (not an extra input byte, so that the committed corpus keeps its meaning)
             let pre = c.h("pre");
